@@ -21,6 +21,12 @@ pub fn gen_case(t: &mut Tape, tier: Tier) -> Option<Phys> {
 
 pub fn assert_c02(c: &Phys, ev: &Eval, ctx: &mut Ctx) -> Result<(), Failure> {
     let d = c.g.d as f64;
+    if ev.sym.degenerate_momenta {
+        // the code's tropical polynomials are topological; they coincide with the largest monomials of the actual F
+        // only for generic momenta (no partial sum of external momenta vanishes)
+        ctx.label("excluded:non-generic-momenta");
+        return Ok(());
+    }
     if !ev.in_range {
         ctx.label("excluded:out-of-range");
         return Ok(());
